@@ -320,7 +320,10 @@ def run_property(ctx, pid):
             "thorough tier: a sample of histories is additionally replayed inside Coq by vm_compute (coq/C04/CrossCheck.v): for it extraction and OCaml are not trusted",
         ],
     })
-    if not ctx.replay and summ.get("refused", 0) < 0.40 * fall:
+    # quick tier: generated histories only (floor 0.40); the thorough tier adds ~25 000 exhaustive histories of
+    # length <= 3 over a small universe, most of whose calls are accepted: floor 0.38 there
+    floor = 0.40 if ctx.tier == "quick" else 0.38
+    if not ctx.replay and summ.get("refused", 0) < floor * fall:
         ctx.violation(low + "-too-few-refusals", "only %d of %d fallible calls were refused (the run must exercise >= 40 %% refusals)" % (summ.get("refused", 0), fall),
                       {"summary": {k: summ.get(k) for k in ("fallible", "refused")}}, found_input=False)
     ctx.assumptions = [
